@@ -41,7 +41,9 @@ class PcaClassifier:
         self.n_components = n_components
         self.n_clusters = n_clusters
 
-        self._pca = PCA(n_components=n_components)
+        # NOTE: the "auto" solver switches to a randomized (approximate and
+        # non-deterministic) SVD for images larger than 500 pixels.
+        self._pca = PCA(n_components=n_components, svd_solver="full")
         self._kmeans = KMeans(n_clusters=n_clusters, random_state=seed, n_init=10)
 
     @property
@@ -84,7 +86,8 @@ class PcaClassifier:
         else:
             _input = self._image
         _flat_images = _input.reshape(self._n_image, -1)
-        return _flat_images
+        # exact SVD needs an array chunked in the first dimension only
+        return _flat_images.rechunk({1: -1})
 
     def get_transform(self, labels: Iterable[int] | None = None) -> NDArray[np.float32]:
         """
